@@ -290,6 +290,9 @@ def run(ctx):
     doms = [("x",) * n for n in range(5)]
     depth = 3 if ctx.quick else 4
     uni = list(build.universe("monoidal", sig, doms, depth, 4))
+    # wide boxes above narrow gaps need room: depth <= 2 on up to 7 wires (inputs still <= 4)
+    wide = [r for r in build.universe("monoidal", sig + [("box", "b14", ("x",), ("x",) * 4)], doms, 2, 7)
+            if len(r[2]) == 2]
     if ctx.quick:
         uni = [r for r in uni if len(r[2]) <= 2] + [r for r in uni if len(r[2]) == 3][::12]
         ctx.note("stride", "depth-3 diagrams every 12th (depth <= 2 complete)")
@@ -297,8 +300,10 @@ def run(ctx):
     else:
         uni = [r for r in uni if len(r[2]) <= 3] + [r for r in uni if len(r[2]) == 4][::60]
         ctx.cap_hit("depth-4 diagrams enumerated with stride 60 (depth <= 3 complete)")
-    items = [("layout", dict(recipe=r)) for r in uni]
+    items = [("layout", dict(recipe=r)) for r in uni + wide]
     small = [r for r in uni if len(r[2]) <= 2]
+    deep3 = [r for r in uni if len(r[2]) == 3]
+    items += [("diagramize", dict(recipe=r)) for r in deep3[:: (3 if ctx.quick else 1)]]
     items += [("render", dict(recipe=r, matplotlib=(i % (6 if ctx.quick else 2) == 0))) for i, r in enumerate(small)]
     items += [("render", dict(recipe=r, matplotlib=(i % 3 == 0))) for i, r in enumerate(special_recipes())]
     items += [("diagramize", dict(recipe=r)) for r in small]
